@@ -746,6 +746,16 @@ func run(c *runner.Ctx) {
 			P *struct{ M map[Lvl][]NickS }
 		}{&struct{ M map[Lvl][]NickS }{map[Lvl][]NickS{7: {"a", "b"}}}}},
 		{"struct{U map[Ulvl]Lvl}", struct{ U map[Ulvl]Lvl }{map[Ulvl]Lvl{0: 0, 255: 1}}},
+		{"struct{P map[uintptr]string; Q map[uint]int8}", struct {
+			P map[uintptr]string
+			Q map[uint]int8
+		}{map[uintptr]string{4096: "page", 0: "z"}, map[uint]int8{7: -1}}},
+		// strings that look like pieces of the surrounding syntax (none needs escaping)
+		{"struct{S string; L []string; M map[string]string} with syntax look-alikes", struct {
+			S string
+			L []string
+			M map[string]string
+		}{"{a,b,}", []string{",}", "[1,]", ",]", "},{", ":{", "null", "true"}, map[string]string{",}": "x,}", "a,]": "]"}}},
 	}
 	for _, nv := range named {
 		if !c.Take() {
